@@ -20,7 +20,10 @@ that lies below a symlink of the archive to that symlink's (lexically) resolved 
 prefix of any path is a symlink (what `contentsSet.map_directory_structure` does for a live merge), plus possibly
 missing ancestor *directories*; per entry type, mode, uid, gid, mtime, symlink target, device numbers and file bytes
 are equal; two files share (dev, inode) in the output iff they were hardlinked in the input.  Empty contents set,
-an archive holding an empty (compressed) stream -> empty set.
+an archive holding an empty (compressed) stream -> empty set.  Writer half: the archive pkgcore wrote is also read
+with the stdlib tarfile module (one member per entry, stored bytes, link members only inside a hardlink group); when
+that already fails the reader comparison is skipped (derived).  Each write/read runs under a 20 s SIGALRM so that a
+non-terminating relocation loop is reported (crash:CaseTimeout@...) instead of hanging the check.
 
 Dropped/simplified w.r.t. DESIGN.md: symlink resolution is lexical (normpath), like pkgcore's `resolved_target`;
 specs are built so that no two entries resolve to the same final path and symlink graphs are acyclic (both are
@@ -31,6 +34,7 @@ on the file objects (real scans enable every handler, which costs ~10 threads pe
 import bz2
 import os
 import random
+import signal
 import stat
 import tarfile as std_tarfile
 
@@ -479,6 +483,49 @@ def write_foreign(path, case):
         os.rename(raw, path)
 
 
+def _member_path(name):
+    return "/" + (name[2:] if name.startswith("./") else name.lstrip("/"))
+
+
+def writer_half(arch, case, ents, measured):
+    """read the pkgcore-written archive with the stdlib tarfile module: one member per entry under ./<path>, same
+    type, attributes and bytes; hardlinked files as link members to an earlier member of their group.
+    -> (bucket, msg) or None"""
+    opener = bz2.open if case["compress"] == "bzip2" else open
+    by_path = {e["path"]: e for e in ents}
+    seen = {}
+    try:
+        with opener(arch, "rb") as raw, std_tarfile.open(fileobj=raw, mode="r:") as tf:
+            for mem in tf:
+                p = _member_path(mem.name)
+                e = by_path.get(p)
+                if e is None:
+                    return "write:unexpected-member", f"archive member {mem.name!r} does not correspond to an entry"
+                seen[p] = mem
+                if e["type"] == "file":
+                    want = data_bytes(e["data"])
+                    if mem.isreg():
+                        got = tf.extractfile(mem).read()
+                        if got != want:
+                            kind = "write:data-of-unlinkable-file-dropped" if (e.get("noino") or "clash" in e) else "write:file-data"
+                            return kind, f"member {mem.name!r}: {len(want)} bytes {want[:16]!r}.. stored as {len(got)} bytes {got[:16]!r}.."
+                    elif mem.islnk():
+                        tgt = _member_path(mem.linkname)
+                        te = by_path.get(tgt)
+                        if te is None or "grp" not in e or te.get("grp") != e["grp"] or tgt not in seen:
+                            return "write:hardlink-to-wrong-file", f"member {mem.name!r} is a hardlink to {mem.linkname!r}"
+                    else:
+                        return "write:member-type", f"member {mem.name!r} for a regular file has type {mem.type!r}"
+    except (std_tarfile.TarError, EOFError, OSError) as ex:
+        unl = sum(1 for e in ents if e.get("noino")) >= 2 or any("clash" in e for e in ents)
+        return ("write:data-of-unlinkable-file-dropped" if unl else "write:corrupt-archive"), f"stdlib tarfile cannot read the archive: {type(ex).__name__}: {ex}"
+    missing = sorted(set(by_path) - set(seen))
+    if missing:
+        unl = sum(1 for e in ents if e.get("noino")) >= 2 or any("clash" in e for e in ents)
+        return ("write:data-of-unlinkable-file-dropped" if unl else "write:member-missing"), f"no archive member for {missing[:3]!r}"
+    return None
+
+
 def observe(cset):
     out = {}
     for o in cset:
@@ -558,6 +605,9 @@ def classify(case):
 
 def check_case(ctx, case, m, record=True):
     ents = case["entries"]
+    if getattr(ctx, "_c25_hung", False):
+        ctx.count("skipped_after_timeout")  # every further case would cost another CASE_TIMEOUT
+        return
     cl, nontriv = classify(case)
     try:
         final, hops = ref_final_paths(ents)
@@ -600,7 +650,12 @@ def check_case(ctx, case, m, record=True):
                         th.close()
                 return True
 
-            if core.crashed(core.guarded(ctx, case, write)):
+            if core.crashed(core.guarded(ctx, case, timed(write))):
+                return
+            # writer half: the archive as an independent reader (stdlib tarfile) sees it
+            bad = writer_half(arch, case, ents, measured)
+            if bad:
+                ctx.violation(bad[0], case, bad[1])
                 return
 
         # ---- read it back
@@ -613,16 +668,12 @@ def check_case(ctx, case, m, record=True):
                 got = tar.convert_archive(th)
             return observe(got)
 
-        # >= 2 files that cannot be hardlinked to the file that owns their (dev, inode) key - in particular two files
-        # without inode information - exercise one writer branch; whatever goes wrong then is that root cause
-        unlinkable = sum(1 for e in ents if e.get("noino")) >= 2 or any("clash" in e for e in ents)
-        sink = _Sink() if unlinkable else ctx
-        got = core.guarded(sink, case, read)
-        if not (core.crashed(got) or not in_domain):
-            compare(sink, case, ents, final, hops, got, measured)
-        if unlinkable and sink.first:
-            ctx.violation("write:data-of-unlinkable-file-dropped", case,
-                          f"set with files that share a (dev, inode) key without being hardlinks (e.g. no inode info): {sink.first[0]}: {sink.first[1]}")
+        got = core.guarded(ctx, case, timed(read))
+        if any(b.startswith("crash:CaseTimeout") for b in ctx.violations):
+            ctx._c25_hung = True
+        if core.crashed(got) or not in_domain:
+            return
+        compare(ctx, case, ents, final, hops, got, measured)
     finally:
         for h in handles:
             try:
@@ -632,15 +683,28 @@ def check_case(ctx, case, m, record=True):
         _rmtree(d)
 
 
-class _Sink:
-    """collects violations of a case whose root cause is already known"""
+class CaseTimeout(Exception):
+    """a single write or read did not finish within CASE_TIMEOUT seconds (normal: ~0.03 s)"""
 
-    def __init__(self):
-        self.first = None
 
-    def violation(self, bucket, case, msg):
-        if self.first is None:
-            self.first = (bucket, msg)
+CASE_TIMEOUT = 20
+
+
+def _alarm(signum, frame):
+    raise CaseTimeout(f"no result after {CASE_TIMEOUT}s")
+
+
+def timed(fn):
+    """run fn() under SIGALRM; a hang inside pkgcore surfaces as crash:CaseTimeout@<pkgcore frame> via core.guarded"""
+    def run():
+        old = signal.signal(signal.SIGALRM, _alarm)
+        signal.alarm(CASE_TIMEOUT)
+        try:
+            return fn()
+        finally:
+            signal.alarm(0)
+            signal.signal(signal.SIGALRM, old)
+    return run
 
 
 def _rmtree(d):
@@ -790,10 +854,10 @@ def plan(tier, seed):
     tasks = [{"task": "empty"}]
     if tier == "quick":
         for _ in range(15):
-            tasks.append({"task": "trees", "examples": 260, "maxn": 14})
+            tasks.append({"task": "trees", "examples": 100, "maxn": 14})
     else:
         for _ in range(31):
-            tasks.append({"task": "trees", "examples": 6000, "maxn": 30})
+            tasks.append({"task": "trees", "examples": 2500, "maxn": 30})
     return tasks
 
 
@@ -803,7 +867,7 @@ def run_task(ctx, task, **kw):
         for v in EMPTY_VARIANTS:
             check_empty(ctx, v, m)
     elif task == "trees":
-        core.hyp_run(ctx, SEEDS, lambda n: check_case(ctx, gen_case(n, kw["maxn"]), m), kw["examples"], chunk=100)
+        core.hyp_run(ctx, SEEDS, lambda n: check_case(ctx, gen_case(n, kw["maxn"]), m), kw["examples"], chunk=50)
     else:
         raise core.HarnessError(f"unknown task {task}")
 
